@@ -15,8 +15,10 @@ TRUSTED = ["harness/c01.py encoder + expectations (Python)", "correspondence is 
 ASSUMPTIONS = ["payload lengths < 2^31", "logging ignored"]
 
 def gen_tables():
-    import gen_riff
-    return gen_riff.gen_riff_consts()
+    import gen_riff, gen_layouts
+    out = gen_riff.gen_riff_consts()
+    out.update(gen_layouts.gen_riff_layouts())
+    return out
 
 
 IGNORE = ("free", "junk")
